@@ -16,12 +16,13 @@ import (
 
 // TableCtx couples a real table with its model.
 type TableCtx struct {
-	M   *MTable
-	T   statedb.RWTable[*Obj]
-	IDs []string // primary key universe
-	Sec []string // secondary key alphabet
-	Tag []string // tag alphabet
-	Pfx []Pfx    // prefix universe
+	M      *MTable
+	T      statedb.RWTable[*Obj]
+	IDs    []string // primary key universe
+	Sec    []string // secondary key alphabet
+	Tag    []string // tag alphabet
+	Pfx    []Pfx    // prefix universe
+	HotPfx int      // index of a prefix shared by many objects
 }
 
 // taskCtx is the harness' per-task state, used for attribution by the oracles.
@@ -100,6 +101,17 @@ func (w *World) guard(prop, what string, fn func()) (ok bool) {
 }
 
 func isAbort(r any) bool { return simcore.IsAbort(r) }
+
+// attr attributes an oracle failure that contradicts several property statements at once to the
+// property under check when it is one of them, otherwise to the primary one.
+func (w *World) attr(primary string, also ...string) string {
+	for _, p := range also {
+		if p == w.prop {
+			return p
+		}
+	}
+	return primary
+}
 
 func trimStack(s string) string {
 	lines := strings.Split(s, "\n")
@@ -320,6 +332,7 @@ func (w *World) newTable(t *simcore.Task) bool {
 		Tag: universe([]int{AlphaTiny, AlphaEscape}[c.Choose(2)], 3+c.Choose(4), pick),
 		Pfx: pfxUniverse(pick),
 	}
+	tc.HotPfx = c.Choose(len(tc.Pfx))
 	tc.M.Chain = []*TableState{{Objs: map[string]MObj{}, Dead: map[string]MDel{}, CommitID: -1}}
 	var err error
 	t.Op = "NewTable"
